@@ -106,7 +106,7 @@ theorem saveLines_ok (E : FloatExt) (hE : FloatSpec E) (dc : Char) (m : Str) (fs
   simp only [saveLines, hany, Bool.false_eq_true, if_false]
   have hsr := saveRows_ok E hE dc m fs _ (forall₂_colOK_rows E m fs _ hcols)
   simp only [colSpecs] at hsr
-  simp [hvalid, hsr, bind, Except.bind, pure, Except.pure, valueToScsv, fileLines, fieldNames]
+  simp [saveBody, hvalid, hsr, Except.bind, Except.map, valueToScsv, fileLines, fieldNames]
 
 /-! ### the text of the file and its lines -/
 
@@ -623,11 +623,10 @@ theorem read_save (E : FloatExt) (hE : FloatSpec E) (dc : Char) (m : Str) (fs : 
   have hparse := parseColumns_written E hE m hh.missingStrip fs data hcols
   -- assemble
   unfold readLines
-  simp only [hsplit]
-  simp only [hheader, hval', hread, bind, Except.bind, pure, Except.pure, optErr, Bool.not_true,
-    Bool.false_eq_true, if_false, csvRows]
+  rw [hsplit]
+  simp only [hheader, Except.bind, hval', Bool.not_true, Bool.false_eq_true, if_false, readBody, hread, optErr, csvRows]
   rw [← colSpecs, ← fieldNames, fieldNames_norm, colSpecs_norm]
   simp only [hnamesStrip, ne_eq, not_true_eq_false, if_false, hh.names, Bool.not_true, Bool.false_eq_true,
-    hstrict, optErr, hparse, valueToScsv, bind, Except.bind, pure, Except.pure]
+    readTyped, hstrict, optErr, Except.bind, hparse, valueToScsv, Except.map]
 
 end Scsv
